@@ -123,3 +123,30 @@ pub fn enumerate(sub: &mut Sub, n: usize, f: impl Fn(usize) -> Case + Sync) {
     sub.sample(s);
   }
 }
+
+
+/// For real-clock (E4) cells, which are single real-time executions under whatever load the machine
+/// has: a violation is reported only if the same (clause, class) shows again when the cell is
+/// executed a second time. A defect that is there reproduces; a one-off caused by scheduling noise
+/// does not, and is recorded in the sample as unconfirmed instead of raising an alarm.
+pub fn confirmed(run_cell: impl Fn() -> Case) -> Case {
+  let mut first = run_cell();
+  if first.violations.is_empty() {
+    return first;
+  }
+  let second = run_cell();
+  let mut unconfirmed = vec![];
+  first.violations.retain(|v| {
+    let again = second.violations.iter().any(|w| w.0 == v.0 && w.1 == v.1);
+    if !again {
+      unconfirmed.push(format!("{}/{}: {}", v.0, v.1, v.2));
+    }
+    again
+  });
+  first.evals = first.evals.max(1) + second.evals.max(1);
+  if !unconfirmed.is_empty() {
+    let prev = first.sample.take().unwrap_or(serde_json::Value::Null);
+    first.sample = Some(serde_json::json!({"observed_once_not_on_the_second_run": unconfirmed, "sample": prev}));
+  }
+  first
+}
